@@ -29,6 +29,9 @@ var c08Entries = []entryRef{
 	{"gcs", "FromBytes"}, {"gcs", "FromNBytes"}, {"gcs", "(*Filter).Match"}, {"gcs", "(*Filter).MatchAny"},
 	{"gcs", "(*Filter).ZipMatchAny"}, {"gcs", "(*Filter).HashMatchAny"},
 	{"jsonpb", "Unmarshal"}, {"jsonpb", "UnmarshalNext"}, {"jsonpb", "(*Unmarshaler).Unmarshal"}, {"jsonpb", "(*Unmarshaler).UnmarshalNext"},
+	// the marshalling direction rewrites the same JSON arrays (anchor jsonpb.go:185): a message decoded from the wire and
+	// printed as JSON is externally supplied data as well
+	{"jsonpb", "(*Marshaler).Marshal"}, {"jsonpb", "(*Marshaler).MarshalToString"},
 }
 
 // c08Exception: obligations whose proof needs a lemma outside the prover's
